@@ -26,6 +26,7 @@ func C16Write(r *eng.Run) {
 	// How the destination fails: for good or only once, with a plain error
 	// or with a net.Error that calls itself a timeout and temporary.
 	failOnce, netErr := r.T.Bool(sim.LFault), r.T.Chance(sim.LFault, 1, 3)
+	shortErr := !netErr && r.T.Chance(sim.LFault, 1, 3) // the failing call reports io.ErrShortWrite
 	// After the failure the application may start over with ResetOp (which is
 	// not Reset: same destination, same writer, the error stays).
 	resetOp := r.T.Chance(sim.LHist, 1, 4)
@@ -33,7 +34,7 @@ func C16Write(r *eng.Run) {
 		rand.Seed(rseed)
 		p := NewPipe(r, nil)
 		p.WFailAt, p.WFailN = failAt, failN
-		p.FailOnce, p.NetErr = failOnce, netErr
+		p.FailOnce, p.NetErr, p.ShortErr = failOnce, netErr, shortErr
 		wr := &WRun{Cfg: cfg, Ops: ops, Pipe: p}
 		wr.W = NewW(cfg, p)
 		wr.MS = applyOptions(wr.W, cfg)
